@@ -530,6 +530,18 @@ fn b64_url(bytes: &[u8]) -> String {
     }
     out
 }
+fn b64_url_decode(name: &str) -> Vec<u8> {
+    const A: &[u8; 64] = b"ABCDEFGHIJKLMNOPQRSTUVWXYZabcdefghijklmnopqrstuvwxyz0123456789-_";
+    let vals: Vec<u32> = name.bytes().filter(|c| *c != b'=').filter_map(|c| A.iter().position(|a| *a == c).map(|p| p as u32)).collect();
+    let mut out = vec![];
+    for q in vals.chunks(4) {
+        let v = q.iter().enumerate().fold(0u32, |acc, (i, x)| acc | x << (18 - 6 * i));
+        for i in 0..q.len().saturating_sub(1) {
+            out.push((v >> (16 - 8 * i)) as u8);
+        }
+    }
+    out
+}
 /// a file name in the format of a cache item: base64(start, end, len, crc32), little endian
 fn item_name(s: u32, e: u32, len: u64, crc: u32) -> String {
     let mut b = Vec::new();
@@ -650,6 +662,7 @@ fn s4_damage_and_junk(seed: u64) -> W {
         "rename to junk",
         "rename to a name with another length",
         "rename to a name with another checksum",
+        "rename to a name claiming one chunk more (same length and checksum)",
         "replace by a directory of the same name",
         "junk files and directories at every level",
     ];
@@ -688,6 +701,17 @@ fn s4_damage_and_junk(seed: u64) -> W {
             "rename to a name with another length" => io(std::fs::rename(&file, key_dir.join(item_name(s, e, total + 7, 12345)))),
             "rename to a name with another checksum" => {
                 io(std::fs::rename(&file, key_dir.join(item_name(s, e, total, 0x1234_5678 ^ seed as u32))))
+            },
+            "rename to a name claiming one chunk more (same length and checksum)" => {
+                // the name is base64(start, end, len, crc32): keep len and crc32 (the last 16 bytes), claim [s, e+1)
+                let name = file.file_name().and_then(|n| n.to_str()).unwrap_or("").to_string();
+                let raw = b64_url_decode(&name);
+                if raw.len() != 20 {
+                    infra(format!("{case}: item file name {name:?} does not decode to 20 bytes"));
+                }
+                let crc = u32::from_le_bytes([raw[16], raw[17], raw[18], raw[19]]);
+                still_valid = true; // the bytes are intact: a correct hit for [s, e) is fine, anything touching chunk e must not hit or panic
+                io(std::fs::rename(&file, key_dir.join(item_name(s, e + 1, total, crc))))
             },
             "replace by a directory of the same name" => {
                 io(std::fs::remove_file(&file));
@@ -734,6 +758,8 @@ fn s4_damage_and_junk(seed: u64) -> W {
             return Err(format!("{ctx}: get(key#{k}, [{s},{e})) is a hit although the file no longer holds what was put"));
         }
         get(&c, k, s + 1, e - 2, true, &ctx)?;
+        get(&c, k, s, e + 1, false, &ctx)?;
+        get(&c, k, e - 1, e + 1, false, &ctx)?;
         get(&c, k, 0, 40, false, &ctx)?;
         get(&c, k, 20, 22, false, &ctx)?;
         get(&c, k, 0, 1, false, &ctx)?;
